@@ -48,6 +48,7 @@ func c10Provocations(c *Ctx) map[string]func() string {
 	}
 	c10SiteProvocations(c, out)
 	c10ForkSiteProvocations(c, out)
+	c10SortProvocations(c, out)
 	c10Site2Provocations(c, out)
 	n := 10
 	dir := filepath.Join(c.Scratch, "c10provoke")
@@ -145,6 +146,32 @@ func c10Provocations(c *Ctx) map[string]func() string {
 			os.Setenv("PATH", "")
 			defer os.Setenv("PATH", oldPath)
 			return c10CompileText(dir+"/lost", lib, inv, true, extra)
+		}
+	}
+	// an UNDECLARED name that is a near miss (one edit) of SEVERAL declared names at once: whatever the error
+	// text says about it (a plain "undefined", a suggestion, a list of candidates) must be the same every time
+	{
+		var fts, structs, stages []string
+		for _, s := range []string{"bam", "bai", "bar", "baz", "bag", "bat", "bab", "bad", "bah", "bak", "bap", "baw"} {
+			fts = append(fts, "filetype "+s+";")
+		}
+		for i := 0; i < 10; i++ {
+			structs = append(structs, fmt.Sprintf("struct PT%d(\n    int x,\n)\n", i))
+			stages = append(stages, fmt.Sprintf("stage STAGE%c(\n    in  int input%c,\n    out int r,\n    src comp \"bin/s\",\n)\n", 'A'+i, 'a'+i))
+		}
+		decls := strings.Join(fts, "\n") + "\n\n" + strings.Join(structs, "\n") + "\n" + strings.Join(stages, "\n")
+		for name, body := range map[string]string{
+			"undeclared in-type near many filetypes":  "stage USE(\n    in  bal f,\n    out int r,\n    src comp \"bin/u\",\n)\n",
+			"undeclared out-type near many filetypes": "stage USE(\n    in  int x,\n    out ba  r,\n    src comp \"bin/u\",\n)\n",
+			"undeclared struct near many structs":     "stage USE(\n    in  PT  p,\n    out int r,\n    src comp \"bin/u\",\n)\n",
+			"undeclared field type near many":         "struct HOLD(\n    PTX p,\n    baq f,\n)\n\nstage USE(\n    in  HOLD h,\n    out int r,\n    src comp \"bin/u\",\n)\n",
+			"undeclared callable near many stages":    "pipeline P2(\n    in  int x,\n    out int r,\n)\n{\n    call STAGE(\n        inputa = self.x,\n    )\n\n    return (\n        r = STAGE.r,\n    )\n}\n",
+			"undeclared parameter near many":          "pipeline P3(\n    in  int x,\n    out int r,\n)\n{\n    call STAGEA(\n        input = self.x,\n    )\n\n    return (\n        r = STAGEA.r,\n    )\n}\n",
+			"undeclared output near many":             "pipeline P4(\n    in  int x,\n    out int r,\n)\n{\n    call STAGEA(\n        inputa = self.x,\n    )\n\n    return (\n        r = STAGEA.rr,\n    )\n}\n",
+		} {
+			lib := decls + "\n" + body + "\npipeline TOP(\n    in  int x,\n    out int r,\n)\n{\n    call STAGEA(\n        inputa = self.x,\n    )\n\n    return (\n        r = STAGEA.r,\n    )\n}\n"
+			name, lib := name, lib
+			out["near-miss("+name+")"] = func() string { return c10CompileText(dir+"/near", lib, inv, false, nil) }
 		}
 	}
 	// MapExp.GoString abbreviates a map with many keys (first two … last two): error text naming a big literal
